@@ -13,7 +13,7 @@ TECHNIQUE = "explicit enumeration of all event histories (execute / check-condit
 RULE = ("all sequences of up to D events (D=5 quick, 6 thorough) over {execute GOOD, execute CHECK CONDITION, replug (node replaced by a new "
         "inode), unplug, sabotage (next close() of the live handle fails with EBADF), open-fault (the next open() of the device path fails once with EACCES)}, each followed by every closing event {none, close(), "
         "with-block normal exit, with-block exit by exception, SCSI facade with-block exit, exit of a facade that was used for and left another device before}, x replug detection {on, off} x {read-only, "
-        "read-write}; histories one event shorter also with the device path being a symbolic link to the node that is replaced, with the node being a character special file replaced by one of the same device number, and with the path being a link re-pointed to a node of another name while the old node stays (device object from init_device); histories with an unplug also with the node vanishing as ELOOP (self-referencing link) and ENOTDIR (its directory replaced by a file); histories with a command also with every command executed with en_raw_sense=True (the ATA PASS-THROUGH path); histories without open-fault also over a class derived from SCSIDevice that overrides open() (os.open + os.fdopen, _file and _ino set as the inherited open() does); a second execute() run to completion between two source lines of a first one, at every line (same-thread re-entrancy: signal handler, finalizer, another thread scheduled in between), after 4 prefixes: no command through a stale handle, one handle open afterwards; an asynchronous KeyboardInterrupt at every source line of one execute() after 6 short prefixes (node left alone / replaced / removed and replaced ...): passed on, the next execute uses one handle to the node now at the path and leaves exactly that handle open; plus ISCSIDevice close/with/disconnect histories. states = distinct (reference-model state, observed handle set) "
+        "read-write}; histories one event shorter also with the device path being a symbolic link to the node that is replaced, with the node being a character special file replaced by one of the same device number, and with the path being a link re-pointed to a node of another name while the old node stays (device object from init_device); histories with an unplug also with the node vanishing as ELOOP (self-referencing link) and ENOTDIR (its directory replaced by a file); histories with a command also with every command executed with en_raw_sense=True (the ATA PASS-THROUGH path); histories without open-fault also over a class derived from SCSIDevice that overrides open() (os.open + os.fdopen, _file and _ino set as the inherited open() does); fork after open (child executes and releases by close / with / facade exit: no descriptor left in the child, the parent goes on and releases its own), detection on / off, read-only / read-write; a second execute() run to completion between two source lines of a first one, at every line (same-thread re-entrancy: signal handler, finalizer, another thread scheduled in between), after 4 prefixes: no command through a stale handle, one handle open afterwards; an asynchronous KeyboardInterrupt at every source line of one execute() after 6 short prefixes (node left alone / replaced / removed and replaced ...): passed on, the next execute uses one handle to the node now at the path and leaves exactly that handle open; plus ISCSIDevice close/with/disconnect histories. states = distinct (reference-model state, observed handle set) "
         "pairs; transitions = events executed on the real device. Non-trivial = history contains replug, unplug or sabotage.")
 ASSUMPTIONS = [
     "device nodes are real files under /dev/shm/pyscsi-verif-<pid>/ (real inodes, real open/stat/close); replug = rename of a new file over the path, old inode kept alive by a hard link so inode numbers are never recycled",
@@ -41,6 +41,7 @@ def partitions(tier):
     parts.append(["iscsi"])
     parts.append(["interrupt"])
     parts.append(["reentrant"])
+    parts.append(["fork"])
     return parts
 
 
@@ -478,6 +479,74 @@ def run_reentrant(detect, rw, pre, acc=None, only=None):
         k += 1
 
 
+def run_fork(detect, rw, closer):
+    """the device is opened, then the process forks (a worker started with the fork start method): the child uses the device and
+    releases it (close() / leaving a with block, normally or by exception) - in the CHILD no descriptor of the node stays open; the
+    parent goes on using its own handle and releases it in its turn"""
+    import pickle
+    install.ensure()
+    from pyscsi.pyscsi.scsi_cdb_testunitready import TestUnitReady
+    from pyscsi.pyscsi.scsi_device import SCSIDevice
+    node = nodes.Node(lambda g: Target())
+    dev = SCSIDevice(node.path, rw, detect)
+    out = []
+    try:
+        r, w = os.pipe()
+        pid = os.fork()
+        if pid == 0:
+            res = []
+            try:
+                os.close(r)
+                try:
+                    dev.execute(TestUnitReady(dev.opcodes.TEST_UNIT_READY))
+                    if closer == "close":
+                        dev.close()
+                    elif closer == "with_ok":
+                        with dev:
+                            pass
+                    elif closer == "with_exc":
+                        try:
+                            with dev:
+                                raise Boom()
+                        except Boom:
+                            pass
+                    else:
+                        from pyscsi.pyscsi.scsi import SCSI
+                        s = SCSI(None)
+                        s.device = dev
+                        s.__exit__(None, None, None)
+                    res = [g for _, g in node.open_handles()]
+                except BaseException as e:   # noqa: BLE001
+                    res = "raised %s: %s" % (type(e).__name__, e)
+                with os.fdopen(w, "wb") as f:
+                    f.write(pickle.dumps(res))
+            finally:
+                os._exit(0)
+        os.close(w)
+        with os.fdopen(r, "rb") as f:
+            data = f.read()
+        os.waitpid(pid, 0)
+        left = pickle.loads(data) if data else "child died"
+        where = "fork after open (detect=%s, %s), child: execute + %s" % (detect, "read-write" if rw else "read-only", closer)
+        if left != []:
+            out.append(("fork/child_handle_not_released", "%s: in the child %s" % (where, "descriptors of the node still open: %r" % (left,) if isinstance(left, list) else left)))
+        try:
+            dev.execute(TestUnitReady(dev.opcodes.TEST_UNIT_READY))
+        except Exception as e:   # noqa: BLE001
+            out.append(("fork/parent_broken", "%s: afterwards the parent's execute raised %s: %s" % (where, type(e).__name__, e)))
+        dev.close()
+        if node.open_handles():
+            out.append(("fork/parent_handle_not_released", "%s: after the parent's close() descriptors are still open" % where))
+    finally:
+        for fd, _ in node.open_handles():
+            try:
+                os.close(fd)
+            except OSError:
+                pass
+        node.destroy()
+    return out
+
+
 def _oc(oc):
     return "returned" if oc[0] == "ret" else "raised %s(%s)" % (type(oc[1]).__name__, oc[1])
 
@@ -563,6 +632,8 @@ def run_case(case, obs=None):
         return run_interrupt(case[1], case[2], case[3], None, case[4])[0]
     if case[0] == "reentrant":
         return run_reentrant(case[1], case[2], case[3], None, case[4])[0]
+    if case[0] == "fork":
+        return run_fork(case[1], case[2], case[3])
     if case[0] == "sg":
         _, detect, rw, events, closer = case[:5]
         kind = case[5] if len(case) > 5 else 0
@@ -596,6 +667,23 @@ def run_partition(part, tier, seed):
         acc.transitions += nev + 1
         acc.traces += 1
 
+    if part[0] == "fork":
+        for detect in (True, False):
+            for rw in (False, True):
+                for closer in ("close", "with_ok", "with_exc", "scsi_exit"):
+                    case = ["fork", detect, rw, closer]
+                    acc.case(case, nontrivial=True, key=repr(case))
+                    try:
+                        v = run_fork(detect, rw, closer)
+                    except Exception:
+                        import traceback
+                        v = [("harness_error", traceback.format_exc()[-600:])]
+                    for k, w in v:
+                        acc.violation(k, w, case)
+                    acc.outcome((repr(case), tuple(k for k, _ in v)))
+                    acc.transitions += 4
+                    acc.traces += 1
+        return acc
     if part[0] == "reentrant":
         for detect in (True, False):
             for rw in (False, True):
